@@ -1,8 +1,8 @@
 (* C15  Spatial search, sampling and hulls agree with exhaustive computation. *)
-From Coq Require Import ZArith Reals List Lra Lia.
+From Coq Require Import ZArith Reals List Lra Lia Sorted.
 From Flocq Require Import Core.Raux.
-From EG Require Import Num.Num Num.RNum Lib.Vec Model.Types Model.Curve Model.Closest Model.Spatial.
-From EG Require Import Proofs.VecR Proofs.Spatial.
+From EG Require Import Num.Num Num.RNum Lib.Vec Model.Types Model.Curve Model.Closest Model.Spatial Model.Hull.
+From EG Require Import Proofs.VecR Proofs.Spatial Proofs.Hull.
 Import ListNotations.
 Local Open Scope R_scope.
 
@@ -37,3 +37,18 @@ Theorem C15_metric_laws :
   (forall a : pt (@VO3 RNum), dsq (@VO3 RNum) a a = 0) /\ (forall a b : pt (@VO3 RNum), dsq (@VO3 RNum) a b = dsq (@VO3 RNum) b a).
 Proof. repeat split; [exact dsq_refl2 | exact dsq_sym2 | exact dsq_refl3 | exact dsq_sym3]. Qed.
 Print Assumptions C15_metric_laws.
+
+(* the farthest pair of hull vertices is the true diameter: no pair of hull vertices is farther apart *)
+Theorem C15_farthest_pair : forall (pts : list (@V2 RNum)) a b, (a < b)%nat -> (b < length pts)%nat ->
+  @dist2 RNum (nth a pts (0, 0)) (nth b pts (0, 0)) <=
+  @dist2 RNum (nth (fst (@farthest_pair RNum pts)) pts (0, 0)) (nth (snd (@farthest_pair RNum pts)) pts (0, 0)).
+Proof. intros pts a b Hab Hb. apply (farthest_pair_max pts a b Hab Hb). Qed.
+Print Assumptions C15_farthest_pair.
+
+(* order direction: a hull (of three or more vertices) whose source indices ascend cyclically - the points were given
+   counter-clockwise - votes counter-clockwise, one whose indices descend cyclically votes clockwise *)
+Theorem C15_order_direction : forall (l1 l2 : list nat), l2 <> [] -> (3 <= length (l2 ++ l1))%nat ->
+  (StronglySorted lt (l1 ++ l2) -> order_ccw (l2 ++ l1) = true) /\
+  (StronglySorted gt (l1 ++ l2) -> order_ccw (l2 ++ l1) = false).
+Proof. exact order_direction_spec. Qed.
+Print Assumptions C15_order_direction.
